@@ -557,6 +557,9 @@ func CipherUnmarshal(data []byte) ([]byte, error) {
 	if err != nil {
 		return nil, err
 	}
+	if cipher.XCoordinate.Sign() < 0 || cipher.YCoordinate.Sign() < 0 {
+		return nil, errors.New("CipherUnmarshal: negative C1 coordinate")
+	}
 	x := cipher.XCoordinate.Bytes()
 	y := cipher.YCoordinate.Bytes()
 	hash := cipher.HASH
